@@ -7,6 +7,14 @@ PKGS = {
 }
 
 PROPS = {
+    "C18": {
+        "harnesses": [
+            {"pkg": "bt", "name": "VH_C18_FeeQuote"},
+            {"pkg": "bt", "name": "VH_C18_FeeQuotes"},
+            {"pkg": "interpreter", "name": "VH_C07_ExecuteScripts", "require_no_shared_writes": True, "quick": {"params": {"L": 1, "LU": 0}}, "thorough": {"params": {"L": 2, "LU": 0}}},
+        ],
+        "assumptions": [],
+    },
     "C16": {
         "harnesses": [
             {"pkg": "bt", "name": "VH_C16_TxJSON", "quick": {"params": {"IN": 1, "OUT": 1}}, "thorough": {"params": {"IN": 2, "OUT": 2}}},
@@ -34,7 +42,7 @@ PROPS = {
         "harnesses": [
             {"pkg": "bscript", "name": "VH_C15_RoundTrip"},
             {"pkg": "bscript", "name": "VH_C15_Reject"},
-            {"pkg": "bscript", "name": "VH_C15_Edits", "quick": {"params": {"ADDRS": 1}}, "thorough": {"params": {"ADDRS": 3}}},
+            {"pkg": "bscript", "name": "VH_C15_Edits", "quick": {"params": {"ADDRS": 2}}, "thorough": {"params": {"ADDRS": 3}}},
         ],
         "assumptions": [],
     },
@@ -84,6 +92,8 @@ PROPS = {
     "C07": {
         "harnesses": [
             {"pkg": "interpreter", "name": "VH_C07_Step", "quick": {"params": {"D": 3, "K": 2, "A": 1, "C": 0, "TX": 0, "U": 6}}, "thorough": {"params": {"D": 6, "K": 3, "A": 1, "C": 0, "TX": 0, "U": 8}}},
+            {"pkg": "interpreter", "name": "VH_C07_Step", "quick": {"params": {"D": 2, "K": 1, "BIGTOP": 9, "OPLO": 121, "OPHI": 128, "U": 4}}, "thorough": {"params": {"D": 3, "K": 1, "BIGTOP": 9, "OPLO": 121, "OPHI": 165, "U": 4}}},
+            {"pkg": "interpreter", "name": "VH_C07_Step", "quick": {"params": {"D": 1, "K": 1, "UNLOCK": 1, "U": 4}}, "thorough": {"params": {"D": 2, "K": 1, "UNLOCK": 1, "U": 4}}},
             {"pkg": "interpreter", "name": "VH_C07_Execute"},
             {"pkg": "interpreter", "name": "VH_C07_ExecuteScripts", "quick": {"params": {"L": 1, "LU": 0}}, "thorough": {"params": {"L": 2, "LU": 0}}},
         ],
